@@ -174,9 +174,33 @@ func init() {
 	// ---------------------------------------------------------------- other read paths, Unscoped, repeated delete
 	register("C08", func(r *Result, rng *rand.Rand, tier string) {
 		n := map[string]int{"quick": 200, "thorough": 3000, "search": 2000}[tier]
-		for i := 0; i < n && !expired(); i++ {
-			seed := rng.Int63()
-			c08Paths(r, seed)
+		var seeds []int64
+		for i := 0; i < n; i++ {
+			seeds = append(seeds, rng.Int63())
+		}
+		// one driver run per batch of chains
+		for lo := 0; lo < len(seeds) && !expired(); lo += 250 {
+			hi := lo + 250
+			if hi > len(seeds) {
+				hi = len(seeds)
+			}
+			var ask [][]interface{}
+			for _, sd := range seeds[lo:hi] {
+				_, _, _, _, a := c08PathGen(sd)
+				ask = append(ask, a)
+			}
+			if res, err := AskLean(ask); err == nil {
+				for i, sd := range seeds[lo:hi] {
+					c08PathCache[sd] = res[i]
+				}
+			}
+			for _, sd := range seeds[lo:hi] {
+				if expired() {
+					break
+				}
+				c08Paths(r, sd)
+				delete(c08PathCache, sd)
+			}
 		}
 	})
 
@@ -198,12 +222,22 @@ type c08PathCase struct {
 	Path  string   `json:"path"`
 }
 
-func c08Paths(r *Result, seed int64) {
+var c08PathCache = map[int64]json.RawMessage{}
+
+func c08PathGen(seed int64) (*rand.Rand, *wWorld, []wRow, *wChain, []interface{}) {
 	rng := rand.New(rand.NewSource(seed))
 	w := newWorld()
 	rows := genRows(rng, 5+rng.Intn(4), true)
 	cfg := chainGenCfg{exGenCfg: exGenCfg{table: "w_softs"}, soft: true, allowEmpty: true, leadingOr: true}
 	ch := genChainN(rng, w, 1, rng.Intn(4), cfg)
+	ask := []interface{}{"chain.render", ch.json(), []interface{}{false,
+		map[string]interface{}{"col": "`w_softs`.`deleted_at`", "kind": "eq", "val": "nil", "id": w.id(wPred{Col: "deleted", Op: "null"})}}, []interface{}{}}
+	return rng, w, rows, ch, ask
+}
+
+func c08Paths(r *Result, seed int64) {
+	rng, w, rows, ch, ask := c08PathGen(seed)
+	_ = w
 	db, _, sqlDB := openW(rows, true, nil)
 	defer sqlDB.Close()
 	deleted := map[int]bool{}
@@ -214,12 +248,17 @@ func c08Paths(r *Result, seed int64) {
 	}
 	// classification of the listed finding by the Lean model's predicate on this chain
 	sound := true
-	if res, err := AskLean([][]interface{}{{"chain.render", ch.json(), []interface{}{false,
-		map[string]interface{}{"col": "`w_softs`.`deleted_at`", "kind": "eq", "val": "nil", "id": w.id(wPred{Col: "deleted", Op: "null"})}}, []interface{}{}}}); err == nil {
+	raw, cached := c08PathCache[seed]
+	if !cached {
+		if res, err := AskLean([][]interface{}{ask}); err == nil {
+			raw, cached = res[0], true
+		}
+	}
+	if cached {
 		var out struct {
 			Sound bool `json:"sound"`
 		}
-		if json.Unmarshal(res[0], &out) == nil {
+		if json.Unmarshal(raw, &out) == nil {
 			sound = out.Sound
 		}
 	}
